@@ -952,6 +952,15 @@ class Engine:
             return STR, z3.Length(v.t), (lambda k: z3.SubString(v.t, k, 1)), v.t
         return None
 
+    def bind_target(self, tgt, val, env):
+        """bind a comprehension / generator target (a name or a tuple of names, `_` allowed) to a value"""
+        if isinstance(tgt, ast.Name):
+            env[tgt.id] = val
+            return True
+        if isinstance(tgt, (ast.Tuple, ast.List)) and isinstance(val.ty, TTuple) and len(tgt.elts) == len(val.ty.elems):
+            return all(self.bind_target(t, p, env) for t, p in zip(tgt.elts, tuple_parts(val)))
+        return False
+
     def fold_sum(self, seq, var, body, upto, ctx, ev):
         """FOLD_<g>(sequence, c1..cn, k) = g(seq[0]) + .. + g(seq[k-1]) for the expression g = body(var): a spec function named by the
         expression, defined by FOLD(.., 0) = 0 and FOLD(.., k+1) = FOLD(.., k) + g(seq[k]); a KeyError / IndexError inside g is raised
@@ -959,7 +968,10 @@ class Engine:
         et, ln, at, key = seq
         e = z3.Const('e!fold', et.sort())
         saved = dict(ctx.env)
-        ctx.env[var] = V(et, e)
+        if isinstance(var, str):
+            ctx.env[var] = V(et, e)
+        elif not self.bind_target(var, V(et, e), ctx.env):
+            raise OutOfSubset('generator target')
         n_as, n_ex = len(ctx.assumes), len(ctx.excs)
         saved_g = list(ctx.guards)
         elt = ev.ev(body, ctx)
@@ -993,11 +1005,11 @@ class Engine:
         if len(n.args) == 1 and isinstance(n.args[0], ast.GeneratorExp):
             gen = n.args[0]
             g = gen.generators[0]
-            if len(gen.generators) == 1 and not g.ifs and isinstance(g.target, ast.Name) and self._elt_calls_pure(gen.elt):
+            if len(gen.generators) == 1 and not g.ifs and isinstance(g.target, (ast.Name, ast.Tuple)) and self._elt_calls_pure(gen.elt):
                 src = ev.unwrap_opt(ev.ev(g.iter, ctx), ctx)
                 seq = self.as_sequence(src, ctx)
                 if seq is not None:
-                    return self.fold_sum(seq, g.target.id, gen.elt, seq[1], ctx, ev)
+                    return self.fold_sum(seq, g.target, gen.elt, seq[1], ctx, ev)
         v = ev.ev(n.args[0], ctx)
         if isinstance(v.ty, TList) and v.ty.elem in (INT, REAL):
             return self.list_sum(v, list_len(v), ctx)
@@ -1263,10 +1275,9 @@ class Engine:
             ctx.env[g.target.id] = V(INT, lo + k)
         else:
             src = ev.ev(it, ctx)
-            if not isinstance(src.ty, TList) or not isinstance(g.target, ast.Name):
+            if not isinstance(src.ty, TList) or not self.bind_target(g.target, list_at(src, k), ctx.env):
                 raise OutOfSubset('list comprehension source')
             ln = list_len(src)
-            ctx.env[g.target.id] = list_at(src, k)
         saved_g = list(ctx.guards)
         n_as, n_ex = len(ctx.assumes), len(ctx.excs)
         ctx.guards.extend([0 <= k, k < ln])
